@@ -69,9 +69,9 @@ def run(chk):
     chk.coq()
     # the distance kernels: theories/Model_Quadrature.v (PrimFloat instance) against the real FineContour.calcDistance / reverse / getDistance
     from props import quad
-    chk.trust("hand model theories/Model_Quadrature.v of FineContour.calcDistance / reverse / getDistance / interpFunction (numpy cumsum / argmin / searchsorted, closest_approach, scipy interp1d with extrapolation), "
+    chk.trust("hand model theories/Model_Quadrature.v of FineContour.calcDistance / reverse / getDistance / interpFunction (numpy cumsum / argmin / searchsorted, closest_approach, scipy interp1d with extrapolation) and of FineContour.equaliseSpacing (refine stubbed to the identity: the model's contract; contours of at most 8 points, where numpy.mean sums from the left), "
               "run bit for bit (binary64) against the real methods on every run")
-    qc = quad.correspondence(chk, 300 if chk.tier == "quick" else 3000, ["distance", "getdist", "interp"], "distance")
+    qc = quad.correspondence(chk, 320 if chk.tier == "quick" else 3000, ["distance", "getdist", "interp", "equalise"], "distance")
     grids = corpus.get(tier=chk.tier)
     n = len(qc[0]) if qc else 0
     worst = {}
